@@ -212,13 +212,16 @@ def _maxrow():
 
 
 def _build_cel(c, r):
-    r = str(r and int(r) or '')
-    return c != _maxcol() and c or '', r != _maxrow() and r or ''
+    return c or '', str(r and int(r) or '')
 
 
 def _build_ref(c1, r1, c2, r2, anchor=''):
-    (c1, r1), v2 = _build_cel(c1, r1), '{}{}'.format(*_build_cel(c2, r2))
-    v1 = '{}{}{}'.format(c1, r1, anchor)
+    (c1, r1), (c2, r2) = _build_cel(c1, r1), _build_cel(c2, r2)
+    if r1 in ('', '1') and r2 == _maxrow():  # Whole columns.
+        c1, r1, r2 = c1 or 'A', '', ''
+    elif c1.upper() in ('', 'A') and c2.upper() == _maxcol():  # Whole rows.
+        c1 = c2 = ''
+    v1, v2 = '{}{}{}'.format(c1, r1, anchor), '{}{}'.format(c2, r2)
     if v1 == v2 and c1 and r1:
         if v1:
             return v1
